@@ -672,7 +672,14 @@ def record(w, node, op, v):
         steps, bc = list(node.steps), v[2]
         sig = json.dumps(dict(sk='(any).' + (op.get('f') or op.get('t')), kind=kind, base=node.base.kind, forms=[name], bound=bc), sort_keys=True)
     else:
-        steps, bc = shrink(node.ds, node.base, list(node.steps), op, kind)
+        steps = list(node.steps)
+        nosub = [s for s in steps if s['f'] != 'sub']
+        if len(nosub) != len(steps):
+            # does the limited subquery matter? one probe instead of a full shrink: every other step is irrelevant for the shape
+            v2 = verdict_of(node.ds, node.base, nosub, op)
+            if v2 is not None and v2[0] == 'viol' and v2[1] == kind: steps, bc = shrink(node.ds, node.base, nosub, op, kind)
+            else: bc = v[2]
+        else: steps, bc = shrink(node.ds, node.base, steps, op, kind)
         if bc is None: steps, bc = list(node.steps), v[2]
         forms = [s['form'] for s in steps] + [name]
         sk = '(base).' + skeleton(steps, op) if not steps else skeleton(steps, op)
